@@ -21,8 +21,22 @@ func verifIsIPv6Char(c byte) bool { // IPv6 literals, incl. v4-mapped and zone i
 }
 
 func verifSymPeer(tag string, v6 bool) *core.PeerInfo {
+	// Peer id: every byte is hex-encoded independently of the others; the quick
+	// tier makes a spread of positions symbolic, the thorough tier all 20.
 	var id core.PeerID
-	copy(id[:], verif.Bytes(tag+"id", 20))
+	for i := range id {
+		id[i] = byte(0x10*i + 7)
+	}
+	pos := []int{0, 9, 19}
+	if verif.Bound("symbolic_peer_id_bytes", 3, 20) == 20 {
+		pos = pos[:0]
+		for i := 0; i < 20; i++ {
+			pos = append(pos, i)
+		}
+	}
+	for _, i := range pos {
+		id[i] = verif.Byte(tag + "id")
+	}
 	n := verif.Len(tag+"iplen", 0, verif.Bound("ip_len", 4, 8))
 	ip := verif.String(tag+"ip", n)
 	for i := 0; i < n; i++ {
